@@ -40,15 +40,16 @@ Qed.
 Section Fine.
 Variable ffmt : Z -> Z -> bytes.
 Variable tz : Z -> Z.
+Variable efmt : Z -> bytes.
 Variable jsonp : bytes -> res bytes.
 
 (* every column type of the table has its cell lemma *)
 Definition family_cols (cols : list (coltype * bool)) : Prop :=
-  Forall (fun p => wf_type (fst p) = true /\ cell_family_ok ffmt tz jsonp (fst p)) cols.
+  Forall (fun p => wf_type (fst p) = true /\ cell_family_ok ffmt tz efmt jsonp (fst p)) cols.
 
 Lemma val_fine_of_wf specs img :
   family_cols (map snd specs) -> Forall2 value_ok (map snd specs) img ->
-  Forall2 (val_fine ffmt tz jsonp) specs img.
+  Forall2 (val_fine ffmt tz efmt jsonp) specs img.
 Proof.
   revert img. induction specs as [|s specs IH]; intros img F V; inversion V; subst; constructor.
   - inversion F as [|? ? [Wt Fam] ?]; subst.
@@ -58,7 +59,7 @@ Proof.
 Qed.
 
 Lemma len_fine_of_val specs img :
-  Forall2 (val_fine ffmt tz jsonp) specs img -> Forall2 len_fine (map cs_type specs) img.
+  Forall2 (val_fine ffmt tz efmt jsonp) specs img -> Forall2 len_fine (map cs_type specs) img.
 Proof.
   induction 1 as [|s cv specs img H HF IH]; cbn [map]; constructor; auto.
   destruct cv; cbn [len_fine val_fine] in *; auto. intros pre rest. apply H.
@@ -245,13 +246,14 @@ Section RowsParse.
 Variables pc pn : Z.     (* padding patterns of the presence bitmaps and of the NULL bitmaps: arbitrary *)
 Variable ffmt : Z -> Z -> bytes.
 Variable tz : Z -> Z.
+Variable efmt : Z -> bytes.
 Variable jsonp : bytes -> res bytes.
 Variable tm : table_map.
 Variable cols : list (coltype * bool).
 Let tys := map fst cols.
 Hypothesis Htypes : tm_types tm = map code_of tys.
 Hypothesis Hmeta : tm_meta tm = map meta_of tys.
-Hypothesis Hfam : family_cols ffmt tz jsonp cols.
+Hypothesis Hfam : family_cols ffmt tz efmt jsonp cols.
 Variables (tid : bytes) (flags : Z) (extra : bytes) (kind : Z) (before after : list (list cellv)).
 Variables (v2 : bool) (typ : Z).
 Hypothesis Hflags : 0 <= flags < 65536.
@@ -417,6 +419,7 @@ Qed.
 Section Roundtrip.
 Variable ffmt : Z -> Z -> bytes.
 Variable tz : Z -> Z.
+Variable efmt : Z -> bytes.
 Variable jsonp : bytes -> res bytes.
 
 (* Rows on the event the master wrote: any header length, checksum on or off, v1 or v2 (any
@@ -424,7 +427,7 @@ Variable jsonp : bytes -> res bytes.
    any presence and NULL patterns, any padding patterns in the unused bits of the presence
    bitmaps (c_pad_cols c) and of the rows' NULL bitmaps (c_pad_null c) *)
 Theorem rows_roundtrip c v h cols tm r crc :
-  wf_cfg c = true -> family_cols ffmt tz jsonp cols -> wf_rows_def cols r ->
+  wf_cfg c = true -> family_cols ffmt tz efmt jsonp cols -> wf_rows_def cols r ->
   tm_types tm = col_codes cols -> tm_meta tm = map (fun p => meta_of (fst p)) cols ->
   h_type h = rows_type c (rd_kind r) ->
   (do ev <- strip_checksum56 (expect_format c v) (enc_ev c h (enc_rows_body c (map fst cols) r) crc);
@@ -440,14 +443,14 @@ Proof.
   replace (if c_tid4 c then 4%nat else 6%nat) with (length (enc_table_id c (rd_id r)))
     by apply enc_table_id_length.
   unfold enc_rows_body, expect_rows.
-  apply (rows_parse_ok (c_pad_cols c) (c_pad_null c) ffmt tz jsonp tm cols); auto.
+  apply (rows_parse_ok (c_pad_cols c) (c_pad_null c) ffmt tz efmt jsonp tm cols); auto.
   - rewrite Ht. unfold col_codes. rewrite map_map. reflexivity.
   - rewrite Hm. rewrite map_map. reflexivity.
 Qed.
 
 (* with the table map decoded from the master's table-map event for the same column types *)
 Corollary rows_roundtrip_tm c v h cols pt t r crc :
-  wf_cfg c = true -> family_cols ffmt tz jsonp cols -> wf_rows_def cols r ->
+  wf_cfg c = true -> family_cols ffmt tz efmt jsonp cols -> wf_rows_def cols r ->
   map fst (td_cols t) = map fst cols ->
   h_type h = rows_type c (rd_kind r) ->
   (do ev <- strip_checksum56 (expect_format c v) (enc_ev c h (enc_rows_body c (map fst cols) r) crc);
@@ -489,6 +492,7 @@ Section ImageConsumed.
 Variables pc pn : Z.     (* padding patterns of the presence bitmap and of the NULL bitmap: arbitrary *)
 Variable ffmt : Z -> Z -> bytes.
 Variable tz : Z -> Z.
+Variable efmt : Z -> bytes.
 Variable jsonp : bytes -> res bytes.
 
 Definition specs_cols (specs : list colspec) : list (coltype * bool) := map snd specs.
@@ -498,14 +502,14 @@ Definition specs_cols (specs : list colspec) : list (coltype * bool) := map snd 
    mapper, type code from the table map, absent flag, NULL as no data, canonical text otherwise),
    and nothing beyond the image's last byte is looked at. *)
 Theorem image_consumed tm ti specs img rest :
-  family_cols ffmt tz jsonp (specs_cols specs) ->
+  family_cols ffmt tz efmt jsonp (specs_cols specs) ->
   tm_types tm = map (fun s => code_of (cs_type s)) specs ->
   tm_meta tm = map (fun s => meta_of (cs_type s)) specs ->
   ti_cols ti = map (fun s => (cs_name s, cs_uns s)) specs ->
   wf_image (specs_cols specs) (present_bits img) img = true ->
   image_of ffmt tz jsonp tm ti (expect_bitmap pc (present_bits img)) (expect_bitmap pn (null_bits img))
            (Some (image_cells (map cs_type specs) img ++ rest))
-  = Ok (Some (expect_columns ffmt tz specs img)).
+  = Ok (Some (expect_columns ffmt tz efmt specs img)).
 Proof.
   intros Fam Ht Hm Hti W.
   assert (Lp : length (present_bits img) = length (specs_cols specs)).
@@ -526,7 +530,7 @@ Definition three_way (cv : cellv) (col : column) : Prop :=
   ((exists v, cv = CVal v) <-> (exists s, c_data col = Some s)) /\
   (c_empty col = true -> c_data col = None).
 
-Lemma three_way_cell s cv : three_way cv (expect_column ffmt tz s cv).
+Lemma three_way_cell s cv : three_way cv (expect_column ffmt tz efmt s cv).
 Proof.
   unfold three_way, expect_column, expect_cell.
   destruct cv as [| |v]; cbn [c_empty c_data]; repeat split; intros; try reflexivity; try discriminate;
@@ -534,7 +538,7 @@ Proof.
 Qed.
 
 Lemma three_way_columns specs : forall img, length specs = length img ->
-  Forall2 three_way img (expect_columns ffmt tz specs img).
+  Forall2 three_way img (expect_columns ffmt tz efmt specs img).
 Proof.
   induction specs as [|s specs IH]; intros [|cv img] L; try discriminate L; unfold expect_columns; cbn [combine map].
   - constructor.
@@ -542,7 +546,7 @@ Proof.
 Qed.
 
 Theorem three_way_image tm ti specs img rest :
-  family_cols ffmt tz jsonp (specs_cols specs) ->
+  family_cols ffmt tz efmt jsonp (specs_cols specs) ->
   tm_types tm = map (fun s => code_of (cs_type s)) specs ->
   tm_meta tm = map (fun s => meta_of (cs_type s)) specs ->
   ti_cols ti = map (fun s => (cs_name s, cs_uns s)) specs ->
@@ -552,7 +556,7 @@ Theorem three_way_image tm ti specs img rest :
              (Some (image_cells (map cs_type specs) img ++ rest)) = Ok (Some cs) /\
     Forall2 three_way img cs.
 Proof.
-  intros Fam Ht Hm Hti W. exists (expect_columns ffmt tz specs img). split.
+  intros Fam Ht Hm Hti W. exists (expect_columns ffmt tz efmt specs img). split.
   - apply image_consumed; assumption.
   - apply three_way_columns.
     unfold wf_image in W. apply andb_true_iff in W as [W _]. apply andb_true_iff in W as [W _].
@@ -564,8 +568,8 @@ End ImageConsumed.
 Definition proved_cols (cols : list (coltype * bool)) : Prop :=
   Forall (fun p => wf_type (fst p) = true /\ not_decimal_or_json (fst p) = true) cols.
 
-Lemma proved_cols_family ffmt tz jsonp cols :
-  (forall v, -86400 <= tz v <= 86400) -> proved_cols cols -> family_cols ffmt tz jsonp cols.
+Lemma proved_cols_family ffmt tz efmt jsonp cols :
+  (forall v, -86400 <= tz v <= 86400) -> proved_cols cols -> family_cols ffmt tz efmt jsonp cols.
 Proof.
   intros Htz H. unfold proved_cols, family_cols in *. rewrite Forall_forall in *.
   intros p Hp. destruct (H p Hp) as [W N]. split; [exact W|]. apply proved_families; assumption.
@@ -579,11 +583,11 @@ Theorem rows_roundtrip_proved c v h cols pt t r crc :
    ev_rows (expect_format c v) (expect_table_map pt t) ev) = Ok (expect_rows c (map fst cols) r).
 Proof.
   intros Wc P Wr E Hh.
-  apply (rows_roundtrip_tm (fun _ _ => []) (fun _ => 0) (fun _ => Err EJson)); auto.
+  apply (rows_roundtrip_tm (fun _ _ => []) (fun _ => 0) (fun _ => []) (fun _ => Err EJson)); auto.
   apply proved_cols_family; [intros; lia|exact P].
 Qed.
 
-Theorem image_consumed_proved pc pn ffmt tz jsonp tm ti specs img rest :
+Theorem image_consumed_proved pc pn ffmt tz efmt jsonp tm ti specs img rest :
   (forall v, -86400 <= tz v <= 86400) -> proved_cols (specs_cols specs) ->
   tm_types tm = map (fun s => code_of (cs_type s)) specs ->
   tm_meta tm = map (fun s => meta_of (cs_type s)) specs ->
@@ -591,7 +595,7 @@ Theorem image_consumed_proved pc pn ffmt tz jsonp tm ti specs img rest :
   wf_image (specs_cols specs) (present_bits img) img = true ->
   image_of ffmt tz jsonp tm ti (expect_bitmap pc (present_bits img)) (expect_bitmap pn (null_bits img))
            (Some (image_cells (map cs_type specs) img ++ rest))
-  = Ok (Some (expect_columns ffmt tz specs img)).
+  = Ok (Some (expect_columns ffmt tz efmt specs img)).
 Proof.
   intros Htz P. apply image_consumed. apply proved_cols_family; assumption.
 Qed.
